@@ -917,14 +917,19 @@ class vPeriod(TimeBase):
             raise ValueError('end_or_duration MUST be a datetime, '
                              'date or timedelta instance')
         by_duration = 0
-        if isinstance(end_or_duration, timedelta):
-            by_duration = 1
-            duration = end_or_duration
-            end = start + duration
-        else:
-            end = end_or_duration
-            duration = end - start
-        if start > end:
+        try:
+            if isinstance(end_or_duration, timedelta):
+                by_duration = 1
+                duration = end_or_duration
+                end = start + duration
+            else:
+                end = end_or_duration
+                duration = end - start
+            reversed_period = start > end
+        except (TypeError, OverflowError) as e:
+            # a date with a datetime, a floating with a zoned time, out of range
+            raise ValueError(f"Start and end of a period do not fit: {e}") from e
+        if reversed_period:
             raise ValueError("Start time is greater than end time")
 
         self.params = Parameters({'value': 'PERIOD'})
